@@ -1200,12 +1200,17 @@ func gen(g *core.G) {
 	genLfor(g)
 	genStatic(g, maxLen)
 
-	// 2. random histories of length 40 (every third one: 3..8) over random trees of depth <= 3
+	// 2. random histories (length 3..8, 9..16 or 40) over random trees of depth <= 3
 	r := g.Rng
 	names := []string{nm("type", "a", "r"), nm("type", "A", "r"), nm("type", "b", "r"), nm("type", "m::a", "r"), nm("type", "M::A", "r"),
 		nm("type", "::a", "r"), nm("function", "a", "r"), nm("type", "a", "o")}
 	vals := []string{"(t 1)", "(t 1)", "(t 2)", "(s 1)", "(s 2)", "(al x61 1)", "(al x41 1)", "(al x61 2)"}
-	n := 1500 * g.Scale
+	// volume: 1500 histories (quick), 6 x that (thorough: the exhaustive universes carry the thorough tier, and a long
+	// history costs ~100 x a short one: every step is followed by the observation of every loader x every name)
+	n := 1500
+	if g.Thorough() {
+		n = 9000
+	}
 	for i := 0; i < n; i++ {
 		nl := 2 + r.Intn(3)
 		var tree []string
@@ -1309,15 +1314,19 @@ func gen(g *core.G) {
 			local[r.Intn(k)] = core.Pick(r, []string{nm("type", "m::a", "r"), nm("type", "M::A", "r"), nm("type", "n::a", "r"), nm("type", "x::a", "r"), nm("type", "m::1a", "r"), nm("type", "::m::a", "r")})
 		}
 		var steps []string
+		// half of the histories short (a failure is then reported with a short witness), a third medium, a sixth long
 		hl := 40
-		if i%3 == 0 {
-			hl = 3 + r.Intn(6) // short histories too: a failure is then reported with a short witness
+		switch i % 6 {
+		case 0, 2, 4:
+			hl = 3 + r.Intn(6)
+		case 1, 3:
+			hl = 9 + r.Intn(8)
 		}
 		for j := 0; j < hl; j++ {
 			l := r.Intn(nl)
 			x := local[r.Intn(k)]
 			op := r.Intn(12)
-			if !tsLeaf && !stw && r.Intn(12) == 0 {
+			if !tsLeaf && !stw && r.Intn(16) == 0 {
 				op = 12
 			}
 			if static && !stw && l == 0 && (op < 6 || op == 9 || op == 11) {
